@@ -927,6 +927,106 @@ class E(cohdl.Entity):
 '''
 
 
+# ---------------------------------------------------------------------------------------------------
+# contexts registered through the CORE API (`cohdl.concurrent_context` / `cohdl.sequential_context`) from callables that
+# are created per elaboration and die with it, so that their addresses (`id()`) are recycled by later compilations:
+# bound methods of short-lived helper objects, callable helper objects (`__call__`), closures returned by a factory,
+# nested functions, lambdas.  `VARIANT` permutes which operation drives which output (structurally similar designs
+# with different logic), `BAD` makes two contexts drive one port (rejected in the usage check).  BM works on Bit
+# ports, BMV on BitVector[4] ports with the same helper classes (cross-design reuse).
+# ---------------------------------------------------------------------------------------------------
+_BM = HEAD + '''
+VARIANT = 0
+BAD = False
+
+def configure(**kw):
+    g = globals()
+    g.update(VARIANT=0, BAD=False)
+    g.update(kw)
+
+class Gate:
+    def __init__(self, a, b, out):
+        self.a = a
+        self.b = b
+        self.out = out
+
+    def comb_and(self):
+        self.out <<= self.a & self.b
+
+    def comb_or(self):
+        self.out <<= self.a | self.b
+
+    def comb_xor(self):
+        self.out <<= self.a ^ self.b
+
+class Stage:
+    def __init__(self, clk, inp, out):
+        self.clk = clk
+        self.inp = inp
+        self.out = out
+
+    def reg(self):
+        if cohdl.rising_edge(self.clk):
+            self.out <<= self.inp
+
+    def reg_inv(self):
+        if cohdl.rising_edge(self.clk):
+            self.out <<= ~self.inp
+
+class Inverter:
+    def __init__(self, inp, out):
+        self.inp = inp
+        self.out = out
+
+    def __call__(self):
+        self.out <<= ~self.inp
+
+def make_copy(inp, out):
+    def copy_logic():
+        nonlocal out
+        out <<= inp
+    return copy_logic
+
+class E(cohdl.Entity):
+    clk = Port.input(Bit)
+    a = Port.input(T)
+    b = Port.input(T)
+    o0 = Port.output(T)
+    o1 = Port.output(T)
+    o2 = Port.output(T)
+    o3 = Port.output(T)
+    o4 = Port.output(T)
+    o5 = Port.output(T)
+    o6 = Port.output(T)
+    o7 = Port.output(T)
+
+    def architecture(self):
+        outs = [self.o0, self.o1, self.o2, self.o3, self.o4, self.o5, self.o6, self.o7]
+        outs = outs[VARIANT:] + outs[:VARIANT]
+        cohdl.concurrent_context(Gate(self.a, self.b, outs[0]).comb_and)
+        cohdl.concurrent_context(Gate(self.a, self.b, outs[1]).comb_or)
+        cohdl.concurrent_context(Gate(self.b, self.a, outs[2]).comb_xor)
+        cohdl.sequential_context(Stage(self.clk, self.a, outs[3]).reg)
+        cohdl.sequential_context(Stage(self.clk, self.b, outs[4]).reg_inv)
+        cohdl.concurrent_context(Inverter(self.a, outs[5]), name="inverter",
+                                 source_location=cohdl._core._context.SourceLocation.from_function(Inverter.__call__))
+        cohdl.concurrent_context(make_copy(self.b, outs[6]))
+
+        # (no closure may capture `self`: a cached definition keeps its function, the function its closure cells and
+        #  the template instance would keep every context - and every bound method - of this elaboration alive)
+        in_a, in_b, last = self.a, self.b, outs[7]
+
+        def nested():
+            last.next = in_a & ~in_b
+
+        cohdl.concurrent_context(nested if not BAD else make_copy(self.a, outs[6]))
+        if BAD:
+            cohdl.concurrent_context(nested)
+'''
+BM = _BM.replace("(T)", "(Bit)")
+BMV = _BM.replace("(T)", "(BitVector[4])")
+_BM_SCRIPT = "<conv <arch:E F:30 F:31 F:32 > <blk <apply > <apply > <apply > <apply > <apply > <apply > <apply > <apply > > > "
+
 def _front(arch, trace):
     return f"<conv <arch:E {arch} > <blk {trace} > >"
 
@@ -953,6 +1053,12 @@ POOL = {
     "o_classdict": (O_CLASSDICT, "ok", None, _front("A:c_zulu A:c_alpha A:c_mike A:c_echo F:23", SEQ.format(0)) + " " + IR.format("O:23")),
     "o_select": (O_SELECT, "ok", None, _front("F:24", "<apply > " + SEQ.format(0)) + " " + IR.format("O:24")),
     "o_manyports": (O_MANYPORTS, "ok", None, "<conv <arch:E <arch:Sub > > <blk <apply <arch:Sub > > <blk > > <blk <blk > > > " + IR.format("O:25")),
+    "bm": (BM, "ok", None, _BM_SCRIPT + IR.format("O:30")),
+    "bm@VARIANT=1": (BM, "ok", None, _BM_SCRIPT + IR.format("O:30")),
+    "bm@VARIANT=3": (BM, "ok", None, _BM_SCRIPT + IR.format("O:30")),
+    "bmv": (BMV, "ok", None, _BM_SCRIPT + IR.format("O:31")),
+    "bmv@VARIANT=2": (BMV, "ok", None, _BM_SCRIPT + IR.format("O:31")),
+    "bmv@VARIANT=5": (BMV, "ok", None, _BM_SCRIPT + IR.format("O:31")),
     "a_types": (A_TYPES, "ok", None, _front("T:8 T:5 T:9 T:7 T:2", SEQ.format(0)) + " " + IR.format("O:12")),
     "dyn": (DYN, "ok", None, _front(_DYN_PORTS2 + " F:13", SEQ.format(0)) + " " + IR.format("O:13")),
     "dyn@LANES=3": (DYN, "ok", None, _front(_DYN_PORTS3 + " F:13", SEQ.format(0)) + " " + IR.format("O:13")),
@@ -966,6 +1072,8 @@ POOL = {
     "dynsub@WIDE=True": (DYN_SUB, "ok", None, "<conv <arch:E <arch:Sub A:extra > > <blk <apply <arch:Sub > > <blk > > <blk <blk > > > " + IR.format("O:18")),
     "dyn@FAIL='arch'": (DYN, "reject", "arch", "<conv <arch:E " + _DYN_PORTS2 + " !"),
     "dyn@FAIL='trace',DEBUG=True": (DYN, "reject", "trace", "<conv <arch:E " + _DYN_PORTS2 + " A:dbg > <blk <ctx:0 <apply !"),
+    "bm@BAD=True": (BM, "reject", "usage", _BM_SCRIPT + IR.format("") + " !"),
+    "bmv@BAD=True,VARIANT=2": (BMV, "reject", "usage", _BM_SCRIPT + IR.format("") + " !"),
     "r_arch": (R_ARCH, "reject", "arch", "<conv <arch:E F:1 !"),
     "r_arch_pfx": (R_ARCH_PFX, "reject", "arch", "<conv <arch:E <pfx:archfail N:x > !"),
     "r_arch_sub": (R_ARCH_SUB, "reject", "arch", "<conv <arch:E <arch:Sub > !"),
@@ -995,6 +1103,9 @@ POOL = {
 #   tb0 / tb1  cohdl.use_pretty_traceback(False / True) BEFORE the compilation (a setting that persists)
 # the model script of an option step = script of the design (+ the module scope with the option's names for `res`)
 # ---------------------------------------------------------------------------------------------------
+# bases whose configurations are exercised by long "churn" histories (many compilations in one interpreter, gc between)
+CHURN = ["bm", "bm@VARIANT=1", "bm@VARIANT=3", "bm@BAD=True", "bmv", "bmv@VARIANT=2", "bmv@VARIANT=5", "bmv@BAD=True,VARIANT=2"]
+
 OPTION_STEPS = ["a_comb#res", "a_pfx_trace#res", "a_sub#res", "a_enum#res", "r_trace_seq#res", "r_usage_drivers#res",
                 "a_seq#ir", "a_coro#ir", "r_ir_continue#ir", "a_sub#dir", "a_coro#lib", "a_comb#tb0", "r_trace_call#tb0",
                 "a_seq#tb1"]
